@@ -13,13 +13,15 @@ impl SearchTableSet {
         }
     }
 
-    pub fn add_table(&mut self, ranges: Vec<(char, char)>) -> syn::Ident {
+    /// Table names are prefixed with the lexer name, to avoid clashes when there are multiple
+    /// lexers in a module.
+    pub fn add_table(&mut self, lexer_name: &syn::Ident, ranges: Vec<(char, char)>) -> syn::Ident {
         let n_tables = self.tables.len();
         match self.tables.entry(ranges) {
             Entry::Occupied(entry) => entry.get().clone(),
             Entry::Vacant(entry) => {
                 let ident = syn::Ident::new(
-                    &format!("RANGE_TABLE_{}", n_tables),
+                    &format!("{}_RANGE_TABLE_{}", lexer_name, n_tables),
                     proc_macro2::Span::call_site(),
                 );
                 entry.insert(ident.clone());
